@@ -65,6 +65,10 @@ func init() {
 			app := orDefault(t.Args["app"], "P1")
 			chain := orDefault(t.Args["chain"], "0001")
 			s := r.sessionHeightFor(t.Args["session"], h)
+			if t.Args["shift"] != "" { // a header whose height lies that many blocks after the session boundary
+				d, _ := strconv.ParseInt(t.Args["shift"], 10, 64)
+				s += d
+			}
 			n := 6
 			if t.Args["relays"] != "" {
 				n, _ = strconv.Atoi(t.Args["relays"])
@@ -81,6 +85,9 @@ func init() {
 					continue
 				}
 				var why []string
+				if (s-1)%bps != 0 {
+					why = append(why, "the claimed session height is not the first block of a session")
+				}
 				if h <= s+bps-1 {
 					why = append(why, "the session has not ended")
 				}
@@ -183,7 +190,7 @@ func init() {
 
 	register(&Check{ID: "C32", QuickBud: 170 * time.Second, ThorBud: 40 * time.Minute,
 		Run: func(c *ev.Ctx) {
-			c.Rule = "Explicit-state search over the real application, one transition = one block, histories of 11 blocks with at most 2 (thorough: 3) non-empty blocks chosen from a menu of claims (valid; for the running session; two sessions back; by the other node; over the application's limit; re-claim with another total), proofs (valid; wrong index; wrong leaf; leaf outside the tree; index field altered; too early; for evidence of another size) and environment events (node jailed, application unstaked); after EVERY block a shadow model of the claim store is compared with the real store, every accepted claim is checked against the acceptance conditions evaluated on the historical states (session over, not mature, node in session at start and not jailed at its end, application staked for a supported chain, relays within the application's per-node limit and above the minimum), every accepted proof must be the valid one for a pending claim, and the total supply may change only by the computed reward of the accepted proofs (so: at most one payment per claim, none for expired ones)"
+			c.Rule = "Explicit-state search over the real application, one transition = one block, histories of 11 blocks with at most 2 (thorough: 3) non-empty blocks chosen from a menu of claims (valid; for the running session; two sessions back; by the other node; over the application's limit; re-claim with another total; for a height that is not a session boundary), proofs (valid; wrong index; wrong leaf; leaf outside the tree; index field altered; too early; for evidence of another size) and environment events (node jailed, application unstaked); after EVERY block a shadow model of the claim store is compared with the real store, every accepted claim is checked against the acceptance conditions evaluated on the historical states (the claimed height starts a session, session over, not mature, node in session at start and not jailed at its end, application staked for a supported chain, relays within the application's per-node limit and above the minimum), every accepted proof must be the valid one for a pending claim, and the total supply may change only by the computed reward of the accepted proofs (so: at most one payment per claim, none for expired ones)"
 			c.Assume("evidence is synthesized by the harness (6 distinct signed relay proofs unless stated); the deviation bound counts non-empty blocks")
 			env := claimsEnv()
 			menu := []BlockSpec{
@@ -194,6 +201,7 @@ func init() {
 				blk(tx("claim", "N1", "session", "cur-2")),
 				blk(tx("claim", "N1", "session", "cur-1", "relays", "11")),
 				blk(tx("claim", "N1", "session", "cur-1", "relays", "7")),
+				blk(tx("claim", "N1", "session", "cur-1", "shift", "1")), // a height one block after the session boundary
 				blk(tx("proof", "N1", "session", "cur-2")),
 				blk(tx("proof", "N1", "session", "cur-3")),
 				blk(tx("proof", "N1", "session", "cur-2", "variant", "wrong-index")),
@@ -237,8 +245,8 @@ func init() {
 				run("claims-b3", nil, menu, 3, 8)
 				run("claims-pending", pending, late, 4, 8)
 			} else {
-				run("claims", nil, menu, 2, 8)
 				run("claims-pending", pending, late, 2, 7)
+				run("claims", nil, menu, 2, 8)
 			}
 			getPool().Close()
 		},
@@ -300,144 +308,185 @@ func init() {
 					S++
 				}
 				S += cf.bps // a session that starts after the warm-up block
-				E := S + cf.win*cf.bps
-				last := E + 2
-				name := fmt.Sprintf("bps=%d window=%d", cf.bps, cf.win)
-				mk := func(claimAt int64, salt int64, proofAt int64, variant string) Job {
-					var bl []BlockSpec
-					for h := first; h <= last; h++ {
-						b := BlockSpec{}
-						if h == claimAt {
-							b.Txs = append(b.Txs, TxSpec{Kind: "claim", Signer: "N1", Args: map[string]string{"session": fmt.Sprint(S)}})
-						}
-						if h == proofAt {
-							a := map[string]string{"session": fmt.Sprint(S)}
-							if variant != "" {
-								a["variant"] = variant
+				// claim validation does not insist that the claimed session height is a session boundary: the analysis is
+				// repeated for a header one block after the boundary (remainder 2 modulo blocks per session)
+				starts := []int64{S}
+				if cf.bps >= 3 {
+					starts = append(starts, S+1)
+				}
+				for si, S := range starts {
+					E := S + cf.win*cf.bps
+					last := E + 2
+					name := fmt.Sprintf("bps=%d window=%d", cf.bps, cf.win)
+					if si > 0 {
+						name += " session height one block after the boundary"
+					}
+					mk := func(claimAt int64, salt int64, proofAt int64, variant string) Job {
+						var bl []BlockSpec
+						for h := first; h <= last; h++ {
+							b := BlockSpec{}
+							if h == claimAt {
+								b.Txs = append(b.Txs, TxSpec{Kind: "claim", Signer: "N1", Args: map[string]string{"session": fmt.Sprint(S)}})
 							}
-							b.Txs = append(b.Txs, TxSpec{Kind: "proof", Signer: "N1", Args: a})
-						}
-						if h == salt {
-							b.HashSalt = "verif-salted-validators-hash-32b"
-						}
-						bl = append(bl, b)
-					}
-					return Job{Env: env, Blocks: bl, Want: []string{"c31:indices"}, Args: map[string]string{"session": fmt.Sprint(S)}}
-				}
-				codeAt := func(res JobResult, h int64) int {
-					for _, b := range res.Blocks {
-						if b.Height == h && len(b.Txs) > 0 {
-							return int(b.Txs[0].Code)
-						}
-					}
-					return -1
-				}
-				// (1) acceptance heights
-				var A []int64
-				for h := S; h <= last; h++ {
-					job := mk(h, 0, 0, "")
-					res := p.Exec(job)
-					njobs++
-					if res.Err != "" {
-						c.HarnessError(name + ": " + res.Err)
-						continue
-					}
-					for _, v := range res.Viols {
-						c.Report(v.Sig, v.What+" ["+name+"]", chainReplay{Spec: "c31", Env: env, Blocks: job.Blocks, Want: job.Want})
-					}
-					if codeAt(res, h) == 0 {
-						A = append(A, h)
-					}
-					c.Distinct(fmt.Sprintf("%s|claim@%d", name, h))
-				}
-				if len(A) == 0 {
-					c.HarnessError(name + ": no height accepts the claim")
-					continue
-				}
-				maxA := A[len(A)-1]
-				// (2) which block's hash decides the index
-				base := mk(S+cf.bps, 0, E+1, "")
-				b0 := p.Exec(base)
-				b1 := p.Exec(base)
-				njobs += 2
-				if b0.Err != "" || fmt.Sprint(b0.Obs["indices"]) != fmt.Sprint(b1.Obs["indices"]) {
-					if b0.Err != "" {
-						c.HarnessError(name + ": " + b0.Err)
-					} else {
-						c.Report("unpredictability/index-not-deterministic", fmt.Sprintf("%s: the same history gave required indices %v and %v", name, b0.Obs["indices"], b1.Obs["indices"]), chainReplay{Spec: "c31", Env: env, Blocks: base.Blocks, Want: base.Want})
-					}
-					continue
-				}
-				if codeAt(b0, E+1) != 0 {
-					c.HarnessError(fmt.Sprintf("%s: the proof at the mirrored index was rejected (code %d): the harness does not reproduce the index computation", name, codeAt(b0, E+1)))
-					continue
-				}
-				wrong := p.Exec(mk(S+cf.bps, 0, E+1, "wrong-index"))
-				njobs++
-				if codeAt(wrong, E+1) == 0 {
-					c.Report("unpredictability/other-index-accepted", name+": a proof for the index after the required one was accepted", chainReplay{Spec: "c31", Env: env, Blocks: mk(S+cf.bps, 0, E+1, "wrong-index").Blocks})
-				}
-				K := int64(-1)
-				for k := S; k <= last; k++ {
-					job := mk(S+cf.bps, k, E+1, "")
-					res := p.Exec(job)
-					njobs++
-					if res.Err != "" {
-						c.HarnessError(name + ": " + res.Err)
-						continue
-					}
-					if k <= E && codeAt(res, E+1) != 0 {
-						c.HarnessError(fmt.Sprintf("%s salt@%d: proof at the mirrored index rejected (code %d)", name, k, codeAt(res, E+1)))
-					}
-					if fmt.Sprint(res.Obs["indices"]) != fmt.Sprint(b0.Obs["indices"]) {
-						K = k
-					}
-					c.Distinct(fmt.Sprintf("%s|salt@%d", name, k))
-				}
-				// (3) no proof is accepted while the entropy block does not exist yet: at every height p from the claim's own
-				// block up to K, proofs for EVERY leaf index are delivered (one transaction per index, after the claim);
-				// an accepted one had its leaf selected by something other than the hash of block K, i.e. by data the
-				// servicer knew when it committed the claim
-				if K > 0 {
-					for pth := S + cf.bps; pth <= K; pth++ {
-						job := mk(S+cf.bps, 0, 0, "")
-						for i := range job.Blocks {
-							if first+int64(i) == pth {
-								for idx := 0; idx < 6; idx++ {
-									job.Blocks[i].Txs = append(job.Blocks[i].Txs, TxSpec{Kind: "proof", Signer: "N1", Args: map[string]string{"session": fmt.Sprint(S), "index": fmt.Sprint(idx)}})
+							if h == proofAt {
+								a := map[string]string{"session": fmt.Sprint(S)}
+								if variant != "" {
+									a["variant"] = variant
 								}
+								b.Txs = append(b.Txs, TxSpec{Kind: "proof", Signer: "N1", Args: a})
+							}
+							if h == salt {
+								b.HashSalt = "verif-salted-validators-hash-32b"
+							}
+							bl = append(bl, b)
+						}
+						return Job{Env: env, Blocks: bl, Want: []string{"c31:indices"}, Args: map[string]string{"session": fmt.Sprint(S)}}
+					}
+					codeAt := func(res JobResult, h int64) int {
+						for _, b := range res.Blocks {
+							if b.Height == h && len(b.Txs) > 0 {
+								return int(b.Txs[0].Code)
 							}
 						}
+						return -1
+					}
+					// (1) acceptance heights
+					var A []int64
+					for h := S; h <= last; h++ {
+						job := mk(h, 0, 0, "")
 						res := p.Exec(job)
 						njobs++
 						if res.Err != "" {
 							c.HarnessError(name + ": " + res.Err)
 							continue
 						}
-						for _, b := range res.Blocks {
-							if b.Height != pth {
-								continue
-							}
-							for ti, t := range b.Txs {
-								if t.Code == 0 && !(pth == S+cf.bps && ti == 0) {
-									c.Report("unpredictability/proof-accepted-before-entropy-block",
-										fmt.Sprintf("%s, session %d claimed in block %d: a proof (transaction %d of the block) is accepted in block %d, although the required leaf is decided by the hash of block %d, which does not exist before block %d is committed: the leaf was selected from data known when the claim was committed", name, S, S+cf.bps, ti, pth, K, K),
-										chainReplay{Spec: "c31", Env: env, Blocks: job.Blocks, Want: []string{"c31:indices"}})
+						for _, v := range res.Viols {
+							c.Report(v.Sig, v.What+" ["+name+"]", chainReplay{Spec: "c31", Env: env, Blocks: job.Blocks, Want: job.Want})
+						}
+						if codeAt(res, h) == 0 {
+							A = append(A, h)
+						}
+						c.Distinct(fmt.Sprintf("%s|claim@%d", name, h))
+					}
+					if len(A) == 0 {
+						c.HarnessError(name + ": no height accepts the claim")
+						continue
+					}
+					maxA := A[len(A)-1]
+					// (2) which block's hash decides the index
+					base := mk(S+cf.bps, 0, E+1, "")
+					b0 := p.Exec(base)
+					b1 := p.Exec(base)
+					njobs += 2
+					if b0.Err != "" || fmt.Sprint(b0.Obs["indices"]) != fmt.Sprint(b1.Obs["indices"]) {
+						if b0.Err != "" {
+							c.HarnessError(name + ": " + b0.Err)
+						} else {
+							c.Report("unpredictability/index-not-deterministic", fmt.Sprintf("%s: the same history gave required indices %v and %v", name, b0.Obs["indices"], b1.Obs["indices"]), chainReplay{Spec: "c31", Env: env, Blocks: base.Blocks, Want: base.Want})
+						}
+						continue
+					}
+					// the mirrored index was rejected: which index does the chain accept, if any? (proofs for every index,
+					// one transaction each, on the same history)
+					mismatch := func(salt int64, code int) {
+						all := mk(S+cf.bps, salt, 0, "")
+						for i := range all.Blocks {
+							if first+int64(i) == E+1 {
+								for idx := 0; idx < 6; idx++ {
+									all.Blocks[i].Txs = append(all.Blocks[i].Txs, TxSpec{Kind: "proof", Signer: "N1", Args: map[string]string{"session": fmt.Sprint(S), "index": fmt.Sprint(idx)}})
 								}
 							}
 						}
-						c.Distinct(fmt.Sprintf("%s|early-proof@%d", name, pth))
+						ra := p.Exec(all)
+						njobs++
+						accepted := -1
+						for _, b := range ra.Blocks {
+							if b.Height == E+1 {
+								for ti, t := range b.Txs {
+									if t.Code == 0 {
+										accepted = ti
+									}
+								}
+							}
+						}
+						if accepted < 0 {
+							c.HarnessError(fmt.Sprintf("%s: no proof index is accepted at height %d (mirrored index rejected with code %d)", name, E+1, code))
+							return
+						}
+						c.Report("unpredictability/leaf-not-selected-by-the-documented-block", fmt.Sprintf("%s, session %d: at height %d the chain rejects the proof for the leaf selected by (hash of the block at session height + window x blocks per session = %d, session header, relay count) and accepts the proof for leaf %d instead: the leaf is selected by other data than the documented entropy block", name, S, E+1, E, accepted),
+							chainReplay{Spec: "c31", Env: env, Blocks: all.Blocks, Want: []string{"c31:indices"}})
 					}
-				}
-				c.Outcome(fmt.Sprintf("%s: claims accepted at heights %d..%d (session %d..%d), index decided by the hash of block %d", name, A[0], maxA, S, S+cf.bps-1, K))
-				if K < 0 {
-					c.Report("unpredictability/index-independent-of-block-hashes", name+": no block hash between the session start and the end of the window influences the required index", chainReplay{Spec: "c31", Env: env, Blocks: base.Blocks})
-					continue
-				}
-				if maxA >= K+1 {
-					c.Report(fmt.Sprintf("unpredictability/claim-accepted-after-entropy-block/overlap-%d", maxA-K),
-						fmt.Sprintf("%s, session %d: a claim is still accepted in block %d, but the required leaf is decided by the hash of block %d, which is final (and part of block %d's own header) before any transaction of block %d is chosen", name, S, maxA, K, K+1, maxA),
-						chainReplay{Spec: "c31", Env: env, Blocks: mk(maxA, 0, E+1, "").Blocks, Want: []string{"c31:indices"}})
+					if codeAt(b0, E+1) != 0 {
+						mismatch(0, codeAt(b0, E+1))
+						continue
+					}
+					wrong := p.Exec(mk(S+cf.bps, 0, E+1, "wrong-index"))
+					njobs++
+					if codeAt(wrong, E+1) == 0 {
+						c.Report("unpredictability/other-index-accepted", name+": a proof for the index after the required one was accepted", chainReplay{Spec: "c31", Env: env, Blocks: mk(S+cf.bps, 0, E+1, "wrong-index").Blocks})
+					}
+					K := int64(-1)
+					for k := S; k <= last; k++ {
+						job := mk(S+cf.bps, k, E+1, "")
+						res := p.Exec(job)
+						njobs++
+						if res.Err != "" {
+							c.HarnessError(name + ": " + res.Err)
+							continue
+						}
+						if k <= E && codeAt(res, E+1) != 0 {
+							mismatch(k, codeAt(res, E+1))
+						}
+						if fmt.Sprint(res.Obs["indices"]) != fmt.Sprint(b0.Obs["indices"]) {
+							K = k
+						}
+						c.Distinct(fmt.Sprintf("%s|salt@%d", name, k))
+					}
+					// (3) no proof is accepted while the entropy block does not exist yet: at every height p from the claim's own
+					// block up to K, proofs for EVERY leaf index are delivered (one transaction per index, after the claim);
+					// an accepted one had its leaf selected by something other than the hash of block K, i.e. by data the
+					// servicer knew when it committed the claim
+					if K > 0 {
+						for pth := S + cf.bps; pth <= K; pth++ {
+							job := mk(S+cf.bps, 0, 0, "")
+							for i := range job.Blocks {
+								if first+int64(i) == pth {
+									for idx := 0; idx < 6; idx++ {
+										job.Blocks[i].Txs = append(job.Blocks[i].Txs, TxSpec{Kind: "proof", Signer: "N1", Args: map[string]string{"session": fmt.Sprint(S), "index": fmt.Sprint(idx)}})
+									}
+								}
+							}
+							res := p.Exec(job)
+							njobs++
+							if res.Err != "" {
+								c.HarnessError(name + ": " + res.Err)
+								continue
+							}
+							for _, b := range res.Blocks {
+								if b.Height != pth {
+									continue
+								}
+								for ti, t := range b.Txs {
+									if t.Code == 0 && !(pth == S+cf.bps && ti == 0) {
+										c.Report("unpredictability/proof-accepted-before-entropy-block",
+											fmt.Sprintf("%s, session %d claimed in block %d: a proof (transaction %d of the block) is accepted in block %d, although the required leaf is decided by the hash of block %d, which does not exist before block %d is committed: the leaf was selected from data known when the claim was committed", name, S, S+cf.bps, ti, pth, K, K),
+											chainReplay{Spec: "c31", Env: env, Blocks: job.Blocks, Want: []string{"c31:indices"}})
+									}
+								}
+							}
+							c.Distinct(fmt.Sprintf("%s|early-proof@%d", name, pth))
+						}
+					}
+					c.Outcome(fmt.Sprintf("%s: claims accepted at heights %d..%d (session %d..%d), index decided by the hash of block %d", name, A[0], maxA, S, S+cf.bps-1, K))
+					if K < 0 {
+						c.Report("unpredictability/index-independent-of-block-hashes", name+": no block hash between the session start and the end of the window influences the required index", chainReplay{Spec: "c31", Env: env, Blocks: base.Blocks})
+						continue
+					}
+					if maxA >= K+1 {
+						c.Report(fmt.Sprintf("unpredictability/claim-accepted-after-entropy-block/overlap-%d", maxA-K),
+							fmt.Sprintf("%s, session %d: a claim is still accepted in block %d, but the required leaf is decided by the hash of block %d, which is final (and part of block %d's own header) before any transaction of block %d is chosen", name, S, maxA, K, K+1, maxA),
+							chainReplay{Spec: "c31", Env: env, Blocks: mk(maxA, 0, E+1, "").Blocks, Want: []string{"c31:indices"}})
+					}
 				}
 			}
 			c.AddStates(njobs)
